@@ -1,15 +1,15 @@
 SPECIFICATION Spec
 CONSTANTS
-  ShapeSet <- ShapesOrder
+  ShapeSet <- ShapesRetryChk
   SeqOutcomes <- OkPerm
-  ChkOutcomes <- OkPerm
+  ChkOutcomes <- OkTrPerm
   MaxCrashes = 0
   MaxRuns = 1
   Tolerated <- NoTol
   FnOut = FALSE
-  Poller = TRUE
+  Poller = FALSE
   Aging = FALSE
-  Overruns = FALSE
+  Overruns = TRUE
   Gen = "off"
 INVARIANTS NoClauseViolated InvQuiescentAtRelease InvDurLagsMem
 CHECK_DEADLOCK TRUE
